@@ -421,6 +421,14 @@ void base_str<CharT>::append(const base_str& text)
 {
     size_t len;
 
+    if (&text == this)
+    {
+        // appending a string to itself: read from a copy, the buffer is about to change
+        const base_str self(text);
+        append(self);
+        return;
+    }
+
     len = length();
     len += text.length();
     EnsureAlloced(len + 1);
